@@ -378,6 +378,7 @@ Plan gen_conc(uint64_t seed, const string &prop) {
       }
       p.ops.push_back(o);
     }
+  if (g_light && p.ops.size() > 400) p.ops.resize(400);
   p.sc.max_steps = 30000000ULL;
   return p;
 }
